@@ -65,6 +65,17 @@ var tailCtx = []struct{ name, text string }{
 	{"quasiquote-unquote", "(quasiquote (unquote HOLE))"},
 	{"inner-fn-body", "((fn (q) (identity q) HOLE) n)"},
 	{"inner-fn-vector-params", "((fn [q r] HOLE) n 1)"},
+	{"if-not-then", "(if (not false) HOLE 0)"},
+	{"if-not-else", "(if (not true) 0 HOLE)"},
+	{"if-not-computed", "(if (not (< n 0)) HOLE 0)"},
+	{"if-not-no-else", "(if (not nil) HOLE)"},
+	{"cond-not", "(cond (not true) 0 (not false) HOLE)"},
+	{"if-equals", "(if (= n n) HOLE 0)"},
+	{"if-nil?", "(if (nil? n) 0 HOLE)"},
+	{"if-and-test", "(if (and true n) HOLE 0)"},
+	{"if-or-test", "(if (or nil n) HOLE)"},
+	{"if-let-test", "(if (let (t n) t) HOLE)"},
+	{"if-symbol-test", "(if n HOLE 0)"},
 	{"when-macro", "(when1 true HOLE)"},
 	{"unless-macro", "(unless1 false (identity 1) HOLE)"},
 }
@@ -90,7 +101,7 @@ func genCase(t *rapid.T) Case {
 	c := Case{}
 	for i := 0; i < k; i++ {
 		c.Bodies = append(c.Bodies, g.ctx(g.pick("depth", 6)))
-		call := []string{"plain", "plain", "plain", "thread", "macro", "macro-list", "thread-fn"}[g.pick("callstyle", 7)]
+		call := []string{"plain", "plain", "plain", "thread", "macro", "macro-list", "thread-fn", "atoms", "atoms"}[g.pick("callstyle", 9)]
 		g.uses["call:"+call] = true
 		c.Calls = append(c.Calls, call)
 		c.Thunks = append(c.Thunks, g.pick("thunk", 4) == 0)
@@ -128,6 +139,9 @@ func program(c Case) string {
 				callText = "(" + next + ")"
 			}
 			callText = "(do (reset! ctr (- n 1)) " + callText + ")"
+		case c.Calls[i] == "atoms":
+			// every operand of the tail call is a symbol or a literal
+			callText = "(let (m (- n 1)) (" + next + " m))"
 		case c.Calls[i] == "thread":
 			callText = "(-> n (- 1) " + next + ")"
 		case c.Calls[i] == "thread-fn":
@@ -323,7 +337,7 @@ func TestReplay(t *testing.T) { pbt.Replay(t, P) }
 func TestEachContext(t *testing.T) {
 	n := 0
 	for _, tc := range tailCtx {
-		for _, cs := range []string{"plain", "thread", "thread-fn", "macro", "macro-list"} {
+		for _, cs := range []string{"plain", "thread", "thread-fn", "macro", "macro-list", "atoms"} {
 			n++
 			if !pbt.RunOne(t, P, Case{Bodies: []string{tc.text}, Calls: []string{cs}, Uses: []string{tc.name, "call:" + cs}}) {
 				return
